@@ -887,7 +887,7 @@ func TestC07_Authority(t *testing.T) {
 // indices), plus every whole-variable write, argument callback, construction,
 // realm-value persistence and benign program in several contexts.
 func TestC07_Enum(t *testing.T) {
-	r := vk.Open(t, "C07", "TestC07_Enum", "enumeration: every context x every access path (form = path index mod #forms, alias = parity) and every varwrite/argcb/construct/persist/benign program x 4 contexts, in batches of 12 attackers per victim instance; quick tier takes every 29th attacker of the sweep starting at VERIF_SEED mod 29")
+	r := vk.Open(t, "C07", "TestC07_Enum", "enumeration: every context x every access path (form = path index mod #forms, alias = parity) and every varwrite/argcb/construct/persist/benign program x 8 contexts, in batches of 12 attackers per victim instance; quick tier takes every 41st attacker of the sweep starting at VERIF_SEED mod 41")
 	defer r.Close()
 	if vk.Replaying() {
 		t.Skip()
@@ -919,8 +919,8 @@ func TestC07_Enum(t *testing.T) {
 	}
 	stride, off := 1, 0
 	if !r.Thorough() {
-		stride = 29
-		off = int(r.Seed % 29)
+		stride = 41
+		off = int(r.Seed % 41)
 	}
 	var sel []c07Atk
 	for i := off; i < len(all); i += stride {
